@@ -225,3 +225,7 @@ def run(ctx):
                 ctx.check(ok, 'R02.3', '%s/theta%d/branch%d' % (name, c + 1, k), b.where(0), b.path,
                           'theta%d of branch %d is not the branch-0 formula instantiated with its own theta1 / theta2+theta3 (a sin/cos of another branch is used)' % (c + 1, k),
                           found=show(templ[k][ci], maxdepth=6), expected=show(templ[0][ci], maxdepth=6), detail='same template')
+    # every candidate is kept only if forward() maps it back onto the pose: a wrong forward() silently drops correct
+    # candidates, which breaks completeness - the clauses of C03 are re-checked here
+    from . import C03
+    C03.run(ctx)
